@@ -89,7 +89,7 @@ impl Scenario for C19 {
 
     fn runs(&self, tier: Tier) -> u64 {
         match tier {
-            Tier::Quick => 8_000,
+            Tier::Quick => 40_000,
             Tier::Thorough => 1_200_000,
         }
     }
